@@ -74,6 +74,10 @@ func monitors(cfg cfgT, log []event) (fails []fail, evals int) {
 			evals++
 			if e.Prim {
 				switch {
+				case e.Ev == "close":
+					// the tenure ends before the lease is destroyed: from the moment the lease service
+					// sees the destroy request another node may be primary
+					add("C08.primary-only-in-tenure", "primary/while-destroying-lease", "IsPrimary() is still true inside Close() of the node's own lease: the node gives the lease away before it stops acting as primary", e)
 				case cur == nil:
 					add("C08.primary-only-in-tenure", "primary/without-lease", "IsPrimary() is true although no Acquire/AcquireExisting has returned a lease", e)
 				case cur.closes > 0:
